@@ -329,6 +329,12 @@ static Family cache_family(const std::string &tier)
     c.qcache_max_ttl = 3600;
     f.cfgs.push_back(c);
   }
+  {
+    // truncation ignored: a truncated answer is delivered to the application, but must still never be replayed
+    Cfg c            = cfg("1srv-maxttl3600-igntc", 1, 2, ARES_FLAG_IGNTC);
+    c.qcache_max_ttl = 3600;
+    f.cfgs.push_back(c);
+  }
   // request table: a base question and its near misses
   f.reqs.push_back(rq(2, "www.example.com"));           // 0 base (query_dnsrec A IN rd)
   f.reqs.push_back(rq(2, "WWW.Example.COM"));           // 1 other case
@@ -396,15 +402,30 @@ static Family failover_family(const std::string &tier)
     c.name = b;
     f.cfgs.push_back(c);
   }
+  {
+    // TCP: connection-level failures (peer close, reset) with a request pending must demote the server too
+    Cfg c          = cfg("srv2-usevc-norotate-chance0", 2, 2, ARES_FLAG_USEVC);
+    c.retry_chance = 0;
+    c.auto_io      = true;
+    c.eager_io     = true; // frames reach the wire in the event that queued them: decision time = transmission time
+    f.cfgs.push_back(c);
+    Cfg d          = cfg("srv2-udp-stayopen-norotate-chance0", 2, 2, ARES_FLAG_STAYOPEN);
+    d.retry_chance = 0;
+    d.auto_io      = true;
+    f.cfgs.push_back(d);
+  }
+  // selection policy is the subject here, not I/O timing: descriptors are serviced after every event so that a frame
+  // reaches the wire in the event that chose its server
+  for (auto &c : f.cfgs) c.eager_io = true;
   f.reqs.push_back(rq(2, "a.example.com"));
   f.reqs.push_back(rq(2, "b.example.com"));
   f.reqs.push_back(rq(2, "c.example.com", 28));
   f.req_menu   = { 0, 1, 2 };
-  f.replies    = { RK_DATA, RK_SERVFAIL };
-  f.faults     = { FS_SEND_REFUSED, FS_CONNECT };
+  f.replies    = { RK_DATA, RK_SERVFAIL, RK_TC };
+  f.faults     = { FS_SEND_REFUSED, FS_CONNECT, FS_RECV_RESET };
   f.setservers = { 2, 3 };
   f.advances   = { 6000 };
-  f.evmask     = EVBIT(EV_REQ) | EVBIT(EV_REPLY) | EVBIT(EV_TIMER) | EVBIT(EV_FAULT) | EVBIT(EV_SETSERVERS) | EVBIT(EV_ADVANCE) | EVBIT(EV_IO);
+  f.evmask     = EVBIT(EV_REQ) | EVBIT(EV_REPLY) | EVBIT(EV_TIMER) | EVBIT(EV_FAULT) | EVBIT(EV_SETSERVERS) | EVBIT(EV_ADVANCE) | EVBIT(EV_IO) | EVBIT(EV_TCP);
   f.policy_mask = (1u << ARES_VERIF_RAND_ROTATE) | (1u << ARES_VERIF_RAND_PROBE);
   f.max_req    = 3;
   f.max_adv    = 1;
